@@ -1734,3 +1734,11 @@ func feasiblePhiEdges(phi *ssa.Phi, at *ssa.BasicBlock) []ssa.Value {
 	}
 	return out
 }
+
+// derefType: the pointee of a pointer type, the type itself otherwise.
+func derefType(t types.Type) types.Type {
+	if pt, ok := t.Underlying().(*types.Pointer); ok {
+		return pt.Elem()
+	}
+	return t
+}
